@@ -25,11 +25,11 @@ CLAIMS = {
         note="Trusted: refmodel.MatchFilter and the limit-newest union oracle. Alphabet- and depth-bounded. Ties at a limit cut accept any choice.",
         technique="explicit-state model checking of the implementation: BFS over operation histories replayed on fresh real objects, full internal state as state key, reference-model oracle in every state", design="DESIGN.md §4 C03-C05"),
     "C04": dict(engine="seqx", category="model_checking",
-        text="Same exploration as C03; on every transition (listing before, event, flag, listing after) a specification relation written from the property decides whether the step is allowed: capacity, unique ids, one version per address, newest wins, flag iff-rule, who may leave.",
+        text="Same exploration as C03; on every transition (listing before, event, flag, listing after) a specification relation written from the property decides whether the step is allowed: capacity, unique ids, one version per address, newest wins, flag iff-rule, who may leave. The concurrent cache part of C15 (all schedules of 2-3 tasks on one cache at lock granularity, final state part of the history) also runs here: capacity, one version per address and suppression must hold under concurrent insertions.",
         note="Equal created_at at one address and the relation between a d-less addressable event and the d=\"\" event of the same author are unclaimed; flag of ephemeral events unclaimed.",
         technique="explicit-state model checking with step-wise refinement check against a specification relation", design="DESIGN.md §4 C03-C05"),
     "C05": dict(engine="seqx", category="model_checking",
-        text="Same exploration as C03; step oracle for deletion requests (exactly the author's referenced events leave, re-insertion blocked while the request is retained, request itself listed) plus an author-projection differential check: no event of one author is removed, replaced or refused because of another author's event, except by eviction.",
+        text="Same exploration as C03; step oracle for deletion requests (exactly the author's referenced events leave, re-insertion blocked while the request is retained, request itself listed) plus an author-projection differential check: no event of one author is removed, replaced or refused because of another author's event, except by eviction. The concurrent cache part of C15 also runs here (an event must never be served together with a retained deletion request of its author referencing it, whatever the interleaving of the two insertions).",
         note="a references to plain replaceable kinds are unclaimed (negative claims only), as the property states.",
         technique="explicit-state model checking with step-wise refinement check and differential (author projection) oracle", design="DESIGN.md §4 C03-C05"),
     "C06": dict(engine="seqx", category="model_checking",
@@ -46,7 +46,7 @@ CLAIMS = {
         technique=E1_TECH, design="DESIGN.md §4 C08"),
     "C09": dict(engine="vsched", category="model_checking",
         text="All schedules (unbounded, complete up to happens-before state caching) of one real MergeHandler session over 2-3 scripted children, for every verdict table (accept / three kinds of rejection per child), count table and 7 client scripts including repeated ids in flight; oracle: one OK per EVENT with the right id, verdict and leading reason, one COUNT reply with the maximum.",
-        note="Scheduling points are synchronisation operations; sound for data-race-free code. Children are scripted stubs that honour the property's premise (one reply per request). Harness sizes: one session, <= 3 children, <= 3 requests.",
+        note="Scheduling points are synchronisation operations; sound for data-race-free code. Children are scripted stubs that honour the property's premise (one reply per request). Harness sizes: one session (two sessions for the same-id-in-flight jobs), <= 3 children, <= 3 requests.",
         technique=E1_TECH, design="DESIGN.md §4 C09"),
     "C12": dict(engine="wsx", category="exploration",
         text="Every frame sequence up to length 2 (quick) / 3 (thorough) over 20 frame classes x 3 handler scripts through the real Relay.ServeHTTP + coder/websocket on net.Pipe inside a synctest bubble (exact quiescence after every frame): the handler gets exactly the valid authentic frames in order, every other frame gets exactly one rejection, the connection stays usable; every handler-output sequence up to length 3/4 over 10 server messages arrives as equal text frames in order; a sweep of every free-text field of the seven server message types x 19 strings of special characters (one message per session).",
@@ -66,7 +66,7 @@ CLAIMS = {
         technique=E1_TECH + "; explicit-state BFS for dump/restore", design="DESIGN.md §4 C16"),
     "C14": dict(engine="faultsql", category="fault_enumeration",
         text="For 14 batches x 3 pre-states every driver call (begin, each prepare, each exec, commit) is failed in modes error and connection-drop (thorough: process kill in a child process, and second faults during the retry): answers after the failure equal answers before; retry and re-insertion equal one successful insertion. Close/reopen at every subset of batch boundaries of all histories of <= 3 batches over an 8-batch alphabet: answers equal the never-reopened run, seed stable.",
-        note="Crash points are driver-call boundaries; torn pages inside SQLite's pager are trusted to SQLite. The handler's retry loop is not covered.",
+        note="Crash points are driver-call boundaries; torn pages inside SQLite's pager are trusted to SQLite. The handler's retry loop is covered by the sqlite-retry part under virtual time; a batch of the handler's default size (1000 events) is covered at a stride of fault points by sqlite-bigbatch.",
         technique="exhaustive fault-point enumeration with a fault-injecting database/sql driver plus exhaustive enumeration of reopen placements", design="DESIGN.md §4 C14"),
     "C10": dict(engine="seqx", category="exploration",
         text="All token strings up to length 3/4 over a 34-token JSON alphabet (bare and inside 37 message frames), the complete single-point mutation neighbourhood of every valid test-data line and generated message, and a product of protocol values for all 14 message types, events and filters, through all 29 decoder entry points under recover(): no panic, completely filled values, decode-encode-decode stability, value round trip.",
